@@ -7,8 +7,8 @@ open FV FV.Drv FV.Drv.Prod
 
 def handle (line : String) : String :=
   match splitReq line with
-  | some ("F", op, args) => (prodOp (α := Float) op args).getD "bad-op"
-  | some ("Q", op, args) => (prodOp (α := Rat) op args).getD "bad-op"
+  | some ("F", op, args) => (prodOp (α := Float) Float.sqrt op args).getD "bad-op"
+  | some ("Q", op, args) => (prodOp (α := Rat) (fun x => x) op args).getD "bad-op"     -- no op that takes roots is run at `Rat`
   | _ => "bad-op"
 
 def main : IO Unit := mainLoop handle
